@@ -1,17 +1,17 @@
-\* deviations on = LogicalReturnsOperand, BoolCastTruncates, FloatToUnsignedRejectsNeg, FloatCondNotFolded, UnevaluatedOperandFolded, NoDivisionGuard, CondSameTypeNoPromotion, BareAddressMinusRejected   (template: harness/props/c04.notes.md)
+\* deviations on = none (all eight defects repaired in /repo; see harness/props/c04.py FIXED)
 SPECIFICATION Spec
 CONSTANTS
   Real = TRUE
   CharSigned = TRUE
   Families = {"binsame", "binmix", "fbin", "un", "cast", "condfew", "unev", "nest", "num", "leaf", "addr"}
   Level = 1
-  Dev_LogicalReturnsOperand = TRUE
-  Dev_BoolCastTruncates = TRUE
-  Dev_FloatToUnsignedRejectsNeg = TRUE
-  Dev_FloatCondNotFolded = TRUE
-  Dev_UnevaluatedOperandFolded = TRUE
-  Dev_NoDivisionGuard = TRUE
-  Dev_CondSameTypeNoPromotion = TRUE
-  Dev_BareAddressMinusRejected = TRUE
+  Dev_LogicalReturnsOperand = FALSE
+  Dev_BoolCastTruncates = FALSE
+  Dev_FloatToUnsignedRejectsNeg = FALSE
+  Dev_FloatCondNotFolded = FALSE
+  Dev_UnevaluatedOperandFolded = FALSE
+  Dev_NoDivisionGuard = FALSE
+  Dev_CondSameTypeNoPromotion = FALSE
+  Dev_BareAddressMinusRejected = FALSE
 INVARIANTS Inv_Emit
 CHECK_DEADLOCK FALSE
